@@ -655,7 +655,7 @@ class Engine:
                     a0 = strip_lifetimes(f.args[0])
                     if not a0.startswith(refp) or (refp == '&' and a0.startswith('&mut ')): continue
                     info = self.ix.impl_info(f.name)
-                    if info and info[0] == trait and type_key(a0) == type_key(x) and not re.fullmatch(r'[A-Z]\w{0,2}', type_key(x)): cands.append(f)
+                    if info and info[0] == trait and type_key(a0) == type_key(x) and not re.fullmatch(r'[A-Z]\w{0,2}', type_key(x)) and self.ix.impl_self_is_ref(f.name): cands.append(f)
                 return cands[0] if len(cands) == 1 else None
             if x.startswith(('{', 'Pin<', 'Box<dyn', 'dyn ')): return None
             xs = type_key(x)
